@@ -214,6 +214,10 @@ def check_ls(cfg, w, rep, lf):
         cl_t = stages[i][1][2][1]
         cb = prog.by_path.get(cl_t[1]) if cl_t[0] == "agg" else None
         if cb is None:
+            fnp = _fn_item(prog, pb, stages[i][1], cl_t)
+            if fnp is not None:
+                cb = prog.fns[fnp].body
+        if cb is None:
             rep.violation("b-prefilter:%s" % key, "pre-filter of `%s` is not a closure" % short(lf.path), loc=pb.loc(), config=cfg, rule="d-tombstones-after-dedup")
             continue
         check_prefilter(cfg, w, rep, lf, cb)
